@@ -62,12 +62,15 @@ def build():
     v = Verifier(ix, cts)
     v.global_dict_types = {}
     v.class_attr_types = {}
+    v.class_attr_final = set()
     for m in cmods:
         a = ix.modules[m].assigns
         if 'GLOBAL_DICT_TYPES' in a:
             v.global_dict_types.update(ast.literal_eval(a['GLOBAL_DICT_TYPES']))
         if 'CLASS_ATTR_TYPES' in a:
             v.class_attr_types.update(ast.literal_eval(a['CLASS_ATTR_TYPES']))
+        if 'CLASS_ATTR_FINAL' in a:
+            v.class_attr_final = set(v.class_attr_final) | set(tuple(x) for x in ast.literal_eval(a['CLASS_ATTR_FINAL']))
         if 'FIELD_TYPES' in a:
             v.field_types.update(ast.literal_eval(a['FIELD_TYPES']))
         if 'ORACLE_METHODS' in a:
